@@ -101,7 +101,7 @@ class Inputs:
         a = self.array(name, shape, kind, **kw)
         if self.mode == "sym":
             from .torchx import SymTensor
-            return SymTensor(a)
+            return SymTensor(a, cplx=True if kind == "complex" else None)
         import torch
         return torch.from_numpy(np.ascontiguousarray(a))
 
@@ -243,12 +243,13 @@ def run_paths(claim, ctx, max_paths=64):
 
 
 def decide(check, name, claim, *, logic=None, timeout_s=60, validate=2, max_paths=64, key=None, tol_default=None,
-           expect_reachable=True):
+           expect_reachable=True, decide_logic=None):
     """decide one claim; records obligations on `check` (one per relation label and path)"""
     t_start = time.time()
     rnd = random.Random(f"{seed()}:{name}")
     ctx = Ctx(name)
     ctx.inexact = False
+    ctx.decide_logic = decide_logic
     n_rel = 0
     try:
         with ctx:
@@ -527,27 +528,72 @@ def _worker(i):
                 validated=c.validated, samples=c.samples, wall=time.time() - t)
 
 
-def decide_many(check, cases, jobs=None, **common_opts):
-    """cases: list of (name, claim, opts); each case is decided in its own forked process"""
+def decide_many(check, cases, jobs=None, hard_timeout_s=None, **common_opts):
+    """cases: list of (name, claim, opts); each case is decided in its own forked process, killed after
+    hard_timeout_s of wall time (z3 does not always honour its own time-out) -> inconclusive"""
     import multiprocessing as mp
     import os
     jobs = jobs or int(os.environ.get("VERIF_JOBS", str(os.cpu_count() or 4)))
     work = [(check.pid, check.tier, name, claim, dict(common_opts, **opts)) for name, claim, opts in cases]
     global _WORK
     _WORK = work                     # inherited by the forked workers (claims are closures, not picklable)
+    hard = hard_timeout_s or (common_opts.get("timeout_s", 60) * 6 + 120)
     ctxm = mp.get_context("fork")
-    with ctxm.Pool(min(jobs, max(1, len(work)))) as pool:
-        for r in pool.imap_unordered(_worker, range(len(work))):
-            for o in r["obligations"]:
-                check.obligations.append(o)
-                check.paths += o["paths"]
-                check.queries += o["queries"]
-                check.solver_s += o["solver_s"]
-            check.witnesses += r["witnesses"]
-            check.violations += r["violations"]
-            check.errors += r["errors"]
-            check.validated += r["validated"]
-            for s in r["samples"]:
-                if len(check.samples) < 12:
-                    check.samples.append(s)
+
+    def child(i, conn):
+        try:
+            conn.send(_worker(i))
+        except BaseException as e:  # noqa: BLE001
+            conn.send(dict(name=work[i][2], obligations=[dict(name=work[i][2], status=ERROR, detail=f"worker crashed: {e!r}",
+                                                               solver_s=0.0, paths=0, queries=0, trivial=False)],
+                           witnesses=[], violations=[], errors=[], validated=0, samples=[], wall=0))
+        finally:
+            conn.close()
+
+    def merge(r):
+        for o in r["obligations"]:
+            check.obligations.append(o)
+            check.paths += o["paths"]
+            check.queries += o["queries"]
+            check.solver_s += o["solver_s"]
+        check.witnesses += r["witnesses"]
+        check.violations += r["violations"]
+        check.errors += r["errors"]
+        check.validated += r["validated"]
+        for smp in r["samples"]:
+            if len(check.samples) < 12:
+                check.samples.append(smp)
+
+    pending = list(range(len(work)))
+    running = {}
+    while pending or running:
+        while pending and len(running) < jobs:
+            i = pending.pop(0)
+            a, b = ctxm.Pipe(duplex=False)
+            p = ctxm.Process(target=child, args=(i, b))
+            p.start()
+            b.close()
+            running[i] = (p, a, time.time())
+        done = []
+        for i, (p, conn, t0) in running.items():
+            if conn.poll(0.05):
+                try:
+                    merge(conn.recv())
+                except EOFError:
+                    check.obligation(work[i][2], ERROR, detail="worker died without a result", engine="symnum")
+                p.join(5)
+                done.append(i)
+            elif not p.is_alive():
+                check.obligation(work[i][2], ERROR, detail=f"worker exited with code {p.exitcode} without a result", engine="symnum")
+                done.append(i)
+            elif time.time() - t0 > hard:
+                p.terminate()
+                p.join(5)
+                if p.is_alive():
+                    p.kill()
+                check.obligation(work[i][2], INCONCLUSIVE, detail=f"hard wall-clock limit of {hard:.0f}s reached (solver did not return)",
+                                 engine="symnum")
+                done.append(i)
+        for i in done:
+            running.pop(i)
     check.engines.add("symnum + z3 " + z3.get_version_string())
